@@ -577,6 +577,47 @@ theorem pts_first_line_bytes (L : Lex) (fpp : Nat) (ctok : Tok) (l : List Tok) (
     · simpa using h1
     · simpa [List.length_take, hlen] using (show 3 ≤ (l.take t).length from h2) |>.trans (by simp)
 
+/-- the point built from the first `t ≥ 3` tokens of a line: exactly those tokens — position = tokens 0–2,
+    intensity = token 3 iff it is among them, colour = tokens 4–6 iff all of them are; absent otherwise.
+    Nothing is defaulted: an absent field is `none` (in the Go reader: the attribute is not set on the mesh,
+    `readIntensity` / `readColor` stay false — reader.go:112-125), never a zero. -/
+theorem ptsPoint_take_exact (toks : List Tok) (t : Nat) (h3 : 3 ≤ t) (ht : t ≤ toks.length) :
+    ptsPoint (toks.take t) =
+      { pos := toks.take 3,
+        intensity := if 3 < t then toks[3]? else none,
+        color := if 6 < t then some ((toks.drop 4).take 3) else none } := by
+  simp only [ptsPoint, List.length_take, Nat.min_eq_left ht, List.take_take, Nat.min_eq_left h3]
+  congr 1
+  · split
+    · rw [List.getElem?_take]; simp; omega
+    · rfl
+  · split
+    · congr 1
+      rw [List.drop_take, List.take_take]; congr 1; omega
+    · rfl
+
+/-- DECISION on the one-point case (C14, "data wholly present in the prefix"): whenever the reader accepts a PTS
+    text cut inside its first point line, the file declares exactly one point and the record returned consists of
+    exactly the tokens present — see `ptsPoint_take_exact` — with every other field ABSENT. -/
+theorem pts_one_point_exact (L : Lex) (fpp : Nat) (ctok : Tok) (l : List Tok) (rest : List (List Tok))
+    (hc : CleanTok ctok) (hcl : ∀ t ∈ l, CleanTok t)
+    (hx : PtsOk L fpp (mkLine [ctok]) ((l :: rest).map mkLine))
+    (t : Nat) (ht0 : 0 < t) (ht : t < fpp) (sp : Bool) (m : List PtsPoint)
+    (hok : readPts L (renderLines [[ctok]] ++ (joinSp (l.take t) ++ (if sp then [32] else []))) = .ok m) :
+    rest = [] ∧ 3 ≤ t ∧
+    m = [{ pos := l.take 3,
+           intensity := if 3 < t then l[3]? else none,
+           color := if 6 < t then some ((l.drop 4).take 3) else none }] := by
+  have hlen : l.length = fpp := by
+    have := (hx.2 (mkLine l) (by simp)).1
+    simpa [mkLine] using this
+  rcases pts_first_line_bytes L fpp ctok l rest hc hcl hx t ht0 ht sp with ⟨e, he⟩ | ⟨h1, h2, h3⟩
+  · rw [he] at hok; cases hok
+  · rw [h3] at hok
+    simp only [Except.ok.injEq] at hok
+    refine ⟨h1, h2, ?_⟩
+    rw [← hok, ptsPoint_take_exact l t h2 (by omega)]
+
 /-! ## iteration counts: every loop consumes input
 
   Each reader is a total function whose loops are structural recursions on the input.  The counters are
